@@ -490,7 +490,7 @@ def fam_limits(lib, sizes, quick, rnd):
         return []
     small = min(cands, key=lambda t: load_cost(lib, sizes, [t]))
     cands.sort(key=lambda t: (load_cost(lib, sizes, [t]), t))
-    chosen = [(small, "all")] if quick else [(t, "all") for t in cands[:4] + rnd.sample(cands[4:], min(1, len(cands[4:])))]
+    chosen = [(small, "all")] if quick else [(t, "all") for t in cands[:3] + rnd.sample(cands[3:], min(1, len(cands[3:])))]
     out = []
     n = 0
     for t, which in chosen:
@@ -542,7 +542,7 @@ def fam_files(lib, sizes, quick, rnd):
     if not triples:
         return []
     afford = [t for t in triples if t[0] <= 9_000_000]
-    chosen = [(triples[0], True)] if quick else [(t, True) for t in afford[:8] + rnd.sample(afford[8:], min(2, len(afford[8:])))]
+    chosen = [(triples[0], True)] if quick else [(t, True) for t in afford[:6] + rnd.sample(afford[6:], min(2, len(afford[6:])))]
     out = []
     for (cost, x, b), full in chosen:
         a = "zz_c12_" + x
@@ -679,11 +679,11 @@ def run(rep, tier):
     for var in sorted(gbad):
         hs = list(gbad[var])
         rnd.shuffle(hs)
-        for h in hs[:(2 if quick else 30)]:
+        for h in hs[:(2 if quick else 25)]:
             model_hists.append(("model:" + var, [op_of(k, t) for k, t, _l, _a in h["hist"] + [h["op"]]]))
     good_lines = [h for h in glines if h["var"] == "staledeps" and h["op"][0] == "load"]
     rnd.shuffle(good_lines)
-    for h in good_lines[:(2 if quick else 40)]:
+    for h in good_lines[:(2 if quick else 30)]:
         model_hists.append(("model:sample", [op_of(k, t) for k, t, _l, _a in h["hist"] + [h["op"]]]))
     phase("model on the real graph")
     # ---------------- histories to execute
@@ -750,7 +750,7 @@ def run(rep, tier):
         for ops, cost in gen(lib, sizes, quick, rnd):
             add(ops, cost=cost, fam=fam)
     if not quick:
-        for _ in range(40):
+        for _ in range(30):
             n = rnd.randint(2, 4)
             ops = []
             for _ in range(n):
